@@ -70,75 +70,10 @@ func runC03(c *Ctx) {
 	}
 	c.checkCallbackSave("R1-callback-gating", a, FacetState, "save-needs-state-check")
 
-	// ---- R2 ---------------------------------------------------------------------------------
-	rule := "R2-csrf-load"
-	decodeCSRF := c.Fn(rule, "pkg/cookies.decodeCSRFCookie")
-	validate := c.Fn(rule, "pkg/encryption.Validate")
-	decrypt := c.Fn(rule, "pkg/cookies.decrypt")
-	unmarshal := c.StdFunc(rule, "github.com/vmihailenco/msgpack/v5.Unmarshal")
-	cookieNameF := c.P.Field("net/http.Cookie.Name")
-	if decodeCSRF != nil && validate != nil && decrypt != nil && unmarshal != nil && cookieNameF != nil {
-		c.Walk(rule, a.loadCSRF, func(p *walk.Path) {
-			rv, ok := p.ReturnDV(0)
-			if !ok || DefinitelyNil(p, rv, p.End()) {
-				return
-			}
-			key := "non-nil-return|" + fnKey(a.loadCSRF)
-			inner := p.Resolve(rv)
-			if mi, ok := inner.V.(*ssa.MakeInterface); ok {
-				inner = p.Op(mi.X, inner)
-			}
-			dc, ok := extractOfCall(p, inner, 0)
-			if !ok || dc.C.StaticCallee() != decodeCSRF {
-				c.bad(rule, key, p.Exit, "LoadCSRFCookie returns a CSRF that is not decodeCSRFCookie's result", p, p.End())
-				return
-			}
-			if n, k := p.ResultNil(dc.DV(), 1, p.End()); !(k && n) {
-				c.bad(rule, key, p.Exit, "LoadCSRFCookie returns decodeCSRFCookie's result although its error is not known to be nil", p, p.End())
-				return
-			}
-			cookie := p.Arg(dc, 0)
-			nameParam := a.loadCSRF.Params[1]
-			if !eqAtom(p, p.End(), true,
-				func(x walk.DV) bool { return fieldLoadOn(p, x, cookieNameF, cookie) },
-				func(x walk.DV) bool { return x.V == nameParam }) {
-				c.bad(rule, key, p.Exit, "the decoded cookie's Name was not compared equal to the requested cookie name", p, p.End())
-				return
-			}
-			c.ok(rule, key, p.Exit, "cookie.Name==cookieName and decodeCSRFCookie(cookie) err==nil")
-		})
-		c.Walk(rule, decodeCSRF, func(p *walk.Path) {
-			rv, ok := p.ReturnDV(0)
-			if !ok || DefinitelyNil(p, rv, p.End()) {
-				return
-			}
-			key := "non-nil-return|" + fnKey(decodeCSRF)
-			vc, ok := Has(p, p.End(), Need{M: walk.Static(validate), Idx: 2, Out: IsTrue, Where: func(p *walk.Path, k walk.Call) bool {
-				return p.Resolve(p.Arg(k, 0)).V == decodeCSRF.Params[0]
-			}})
-			if !ok {
-				c.bad(rule, key, p.Exit, "decodeCSRFCookie returns a CSRF on a path where encryption.Validate(cookie) was not ok", p, p.End())
-				return
-			}
-			dcr, ok := Has(p, p.End(), Need{M: walk.Static(decrypt), Idx: 1, Out: ErrNil, Where: func(p *walk.Path, k walk.Call) bool {
-				return ResultIs(p, p.Arg(k, 0), vc, 0)
-			}})
-			if !ok {
-				c.bad(rule, key, p.Exit, "the CSRF is not decrypted from the value Validate returned", p, p.End())
-				return
-			}
-			if _, ok := Has(p, p.End(), Need{M: walk.Static(unmarshal), Idx: -1, Out: ErrNil, Where: func(p *walk.Path, k walk.Call) bool {
-				return ResultIs(p, p.Arg(k, 0), dcr, 0) && p.Same(p.Op(unwrap(p.Resolve(p.Arg(k, 1)).V), p.Resolve(p.Arg(k, 1))), rv)
-			}}); !ok {
-				c.bad(rule, key, p.Exit, "the returned CSRF is not the object the decrypted bytes were unmarshalled into (or unmarshal may have failed)", p, p.End())
-				return
-			}
-			c.ok(rule, key, p.Exit, "Validate ok -> decrypt(value) ok -> msgpack.Unmarshal into the returned object ok")
-		})
-	}
+	runC03R2Rule(c, "R2-csrf-load")
 
 	// ---- R3 ---------------------------------------------------------------------------------
-	rule = "R3-field-agreement"
+	rule := "R3-field-agreement"
 	stateF := c.Field(rule, "pkg/cookies.csrf.OAuthState")
 	nonceF := c.Field(rule, "pkg/cookies.csrf.OIDCNonce")
 	verF := c.Field(rule, "pkg/cookies.csrf.CodeVerifier")
@@ -458,4 +393,77 @@ func indexLoad(v ssa.Value) (int64, bool) {
 		return 0, false
 	}
 	return ConstInt(ia.Index)
+}
+
+// runC03R2Rule: CSRF cookie loading/decoding accepts only a same-named, Validate-ok cookie (also C02.R3).
+func runC03R2Rule(c *Ctx, rule string) {
+	a := c.cbAnchors(rule)
+	if a == nil {
+		return
+	}
+	decodeCSRF := c.Fn(rule, "pkg/cookies.decodeCSRFCookie")
+	validate := c.Fn(rule, "pkg/encryption.Validate")
+	decrypt := c.Fn(rule, "pkg/cookies.decrypt")
+	unmarshal := c.StdFunc(rule, "github.com/vmihailenco/msgpack/v5.Unmarshal")
+	cookieNameF := c.P.Field("net/http.Cookie.Name")
+	if decodeCSRF != nil && validate != nil && decrypt != nil && unmarshal != nil && cookieNameF != nil {
+		c.Walk(rule, a.loadCSRF, func(p *walk.Path) {
+			rv, ok := p.ReturnDV(0)
+			if !ok || DefinitelyNil(p, rv, p.End()) {
+				return
+			}
+			key := "non-nil-return|" + fnKey(a.loadCSRF)
+			inner := p.Resolve(rv)
+			if mi, ok := inner.V.(*ssa.MakeInterface); ok {
+				inner = p.Op(mi.X, inner)
+			}
+			dc, ok := extractOfCall(p, inner, 0)
+			if !ok || dc.C.StaticCallee() != decodeCSRF {
+				c.bad(rule, key, p.Exit, "LoadCSRFCookie returns a CSRF that is not decodeCSRFCookie's result", p, p.End())
+				return
+			}
+			if n, k := p.ResultNil(dc.DV(), 1, p.End()); !(k && n) {
+				c.bad(rule, key, p.Exit, "LoadCSRFCookie returns decodeCSRFCookie's result although its error is not known to be nil", p, p.End())
+				return
+			}
+			cookie := p.Arg(dc, 0)
+			nameParam := a.loadCSRF.Params[1]
+			if !eqAtom(p, p.End(), true,
+				func(x walk.DV) bool { return fieldLoadOn(p, x, cookieNameF, cookie) },
+				func(x walk.DV) bool { return x.V == nameParam }) {
+				c.bad(rule, key, p.Exit, "the decoded cookie's Name was not compared equal to the requested cookie name", p, p.End())
+				return
+			}
+			c.ok(rule, key, p.Exit, "cookie.Name==cookieName and decodeCSRFCookie(cookie) err==nil")
+		})
+		c.Walk(rule, decodeCSRF, func(p *walk.Path) {
+			rv, ok := p.ReturnDV(0)
+			if !ok || DefinitelyNil(p, rv, p.End()) {
+				return
+			}
+			key := "non-nil-return|" + fnKey(decodeCSRF)
+			vc, ok := Has(p, p.End(), Need{M: walk.Static(validate), Idx: 2, Out: IsTrue, Where: func(p *walk.Path, k walk.Call) bool {
+				return p.Resolve(p.Arg(k, 0)).V == decodeCSRF.Params[0]
+			}})
+			if !ok {
+				c.bad(rule, key, p.Exit, "decodeCSRFCookie returns a CSRF on a path where encryption.Validate(cookie) was not ok", p, p.End())
+				return
+			}
+			dcr, ok := Has(p, p.End(), Need{M: walk.Static(decrypt), Idx: 1, Out: ErrNil, Where: func(p *walk.Path, k walk.Call) bool {
+				return ResultIs(p, p.Arg(k, 0), vc, 0)
+			}})
+			if !ok {
+				c.bad(rule, key, p.Exit, "the CSRF is not decrypted from the value Validate returned", p, p.End())
+				return
+			}
+			if _, ok := Has(p, p.End(), Need{M: walk.Static(unmarshal), Idx: -1, Out: ErrNil, Where: func(p *walk.Path, k walk.Call) bool {
+				return ResultIs(p, p.Arg(k, 0), dcr, 0) && p.Same(p.Op(unwrap(p.Resolve(p.Arg(k, 1)).V), p.Resolve(p.Arg(k, 1))), rv)
+			}}); !ok {
+				c.bad(rule, key, p.Exit, "the returned CSRF is not the object the decrypted bytes were unmarshalled into (or unmarshal may have failed)", p, p.End())
+				return
+			}
+			c.ok(rule, key, p.Exit, "Validate ok -> decrypt(value) ok -> msgpack.Unmarshal into the returned object ok")
+		})
+	}
+
 }
